@@ -319,6 +319,9 @@ func ruleC01Template(c *Ctx, r *Rep) {
 					}
 				}
 			}
+			if msg == "" && root.fn == "compileIf" {
+				msg = tplCondProvenance(v.Items, v.Choices)
+			}
 			if msg == "" && root.fn == "compilePattern" && root.name == "" {
 				// the key query of an object pattern is written between parentheses that belong to the pattern, so no term
 				// opens a scope for it: compilePattern has to, or a function defined at its head is resolvable in the body
@@ -656,6 +659,77 @@ var tplSiblings = map[string][][]string{
 	"compileReduce":  {{"Start", "Update"}},
 	"compileForeach": {{"Start", "Update", "Extract"}},
 	"compileTry":     {{"Body", "Catch"}},
+}
+
+// tplCondProvenance: what the first opjumpifnot of a conditional tests is what the condition produced. A straight-line
+// simulation of the data stack by producer (item index; -1 the construct's input) from the entry to the first
+// opjumpifnot; the producer of the tested value has to be a slot that came from the sub-compilation of Cond — or the input
+// itself exactly when Cond compiled to nothing (`if . then`).
+func tplCondProvenance(items []tplItem, choices []string) string {
+	condClass := -1
+	for _, ch := range choices {
+		if strings.HasPrefix(ch, "hole:compileQuery@") {
+			fmt.Sscanf(ch[strings.LastIndex(ch, "=")+1:], "%d", &condClass)
+			break
+		}
+	}
+	if condClass < 0 {
+		return ""
+	}
+	stack := []int{-1}
+	pop := func() int {
+		if len(stack) == 0 {
+			return -2
+		}
+		v := stack[len(stack)-1]
+		stack = stack[:len(stack)-1]
+		return v
+	}
+	for i, it := range items {
+		if it.nilSlot {
+			continue
+		}
+		if it.isHole {
+			for k := 0; k < it.holePop; k++ {
+				pop()
+			}
+			for k := 0; k < it.holePush; k++ {
+				stack = append(stack, i)
+			}
+			continue
+		}
+		switch it.ins.Op {
+		case "opjumpifnot":
+			src := pop()
+			fromCond := src >= 0 && strings.HasSuffix(items[src].origin, "Cond")
+			switch {
+			case condClass == 0 && src != -1:
+				return fmt.Sprintf("[%d] the condition compiled to nothing, yet opjumpifnot tests the result of instruction %d instead of the input", i, src)
+			case condClass != 0 && !fromCond:
+				what := "the input of the conditional"
+				if src >= 0 {
+					what = fmt.Sprintf("the result of instruction %d, which did not come from the condition", src)
+				}
+				return fmt.Sprintf("[%d] opjumpifnot tests %s, not what the condition produced: a rewrite of the instructions around a short condition (a bare variable is oppop, opload) that a later rewrite of the same template does not know about erases the load — `true as $x | null | if $x then 1 else 2 end` yields 2", i, what)
+			}
+			return ""
+		case "opdup":
+			v := pop()
+			stack = append(stack, v, v)
+		default:
+			eff, ok := bcEffects[it.ins.Op]
+			if !ok {
+				return "" // an instruction with an operand-dependent effect before the test: not decided here
+			}
+			for k := 0; k < eff[0]; k++ {
+				pop()
+			}
+			for k := 0; k < eff[1]; k++ {
+				stack = append(stack, i)
+			}
+		}
+	}
+	return ""
 }
 
 func tplSiblingRegions(log []tplHoleRec) string {
